@@ -302,6 +302,9 @@ Definition clipped (s e st dim : Z) : Prop :=
 
 Definition stepval (c : option Z) : Z := match c with Some z => z | None => 1 end.
 
+Definition norm_triple (r : res pyv) : option (Z * Z * Z) :=
+  match r with Ok (VSlice (VInt s) (VInt e) (VInt st)) => Some (s, e, st) | _ => None end.
+
 Lemma norm_triple_some r s e st :
   norm_triple r = Some (s, e, st) -> r = Ok (VSlice (VInt s) (VInt e) (VInt st)).
 Proof.
@@ -325,13 +328,12 @@ Proof.
   repeat (cbn; split_one); cbn; lia.
 Qed.
 
-(* the bounds block of _setitem is the identity on a clipped slice — unless the step is
-   negative and the start is 0 (`ind.start or ...`) *)
+(* the bounds block of _setitem is the identity on a clipped slice *)
 Lemma dok_bounds_clipped s e st dim :
-  clipped s e st dim -> st <> 0 -> (0 < st \/ s <> 0 \/ dim = 1) ->
+  clipped s e st dim -> st <> 0 ->
   dok_bounds (VSlice (VInt s) (VInt e) (VInt st)) dim = Ok (s, e, st).
 Proof.
-  intros Hc Hst Hd4. unfold clipped in Hc.
+  intros Hc Hst. unfold clipped in Hc.
   unfold dok_bounds, g_dok_bounds_pos, g_dok_bounds_neg.
   repeat (cbn; split_one); cbn; repeat f_equal; lia.
 Qed.
@@ -355,20 +357,6 @@ Proof.
   intros H. apply normalize_int_ok. unfold wrap_index.
   destruct (Z.leb_spec (- dim) k); destruct (Z.ltb_spec k dim); simpl; try lia.
   destruct (Z.ltb_spec k 0); [lia|reflexivity].
-Qed.
-
-(* normalising a normalised slice again (COO.__getitem__ after DOK.__getitem__) keeps the
-   selection — unless the step is negative and the start is -1 *)
-Lemma renorm_clipped s e st dim :
-  0 <= dim -> clipped s e st dim -> st <> 0 -> (0 < st \/ 0 <= s \/ dim = 0) ->
-  match norm_triple (normalize_slice (VSlice (VInt s) (VInt e) (VInt st)) dim) with
-  | Some (s2, e2, st2) => st2 = st /\ range_equiv s2 e2 s e st
-  | None => False
-  end.
-Proof.
-  intros Hd Hc Hst Hcl. unfold clipped in Hc.
-  unfold normalize_slice, g_replace_none, g_posify_index, g_clip_slice, range_equiv.
-  repeat (cbn; split_one); cbn; lia.
 Qed.
 
 (* ------------------------------------------------------------------ _setitem: scatter = gather *)
@@ -678,42 +666,38 @@ Qed.
 
 (* ------------------------------------------------------------------ normalize_index, per key *)
 Lemma norm_entries_resolves : forall es sh axs,
-  shape_ok sh -> np_axes es sh = Some axs -> entries_dom entry_setdom es sh = true ->
-  exists ents, norm_entries (map entry_pyv es) sh = Ok ents /\ Forall2 resolves ents axs.
+  shape_ok sh -> np_axes es sh = Some axs ->
+  exists ents, norm_entries (map entry_pyv es) sh = Ok ents /\ Forall2 resolves ents axs /\
+               axes_of ents = Ok axs.
 Proof.
   induction es as [|e es IH]; intros [|d sh] axs Hok; simpl; try discriminate.
-  - intros H _. inversion H. exists []. split; [reflexivity|constructor].
+  - intros H. inversion H. exists []. split; [reflexivity|]. split; [constructor|reflexivity].
   - inversion Hok as [|? ? Hd Hok']; subst.
     destruct (np_axis e d) as [a|] eqn:Ea; [|discriminate].
     destruct (np_axes es sh) as [r|] eqn:Er; [|discriminate].
-    intros H Hdom. inversion H; subst; clear H.
-    apply andb_true_iff in Hdom. destruct Hdom as [Hde Hdr].
-    destruct (IH sh r Hok' Er Hdr) as (ents & Hn & Hf).
+    intros H. inversion H; subst; clear H.
+    destruct (IH sh r Hok' Er) as (ents & Hn & Hf & Hax).
     destruct e as [i|sa sb sc]; simpl in Ea.
     + destruct (wrap_index i d) as [k|] eqn:Ew; [|discriminate]. inversion Ea; subst.
-      exists ((VInt k, d) :: ents). split.
+      exists ((VInt k, d) :: ents). split; [|split].
       * simpl. rewrite (normalize_int_ok _ _ _ Ew). simpl. rewrite Hn. reflexivity.
       * constructor; [constructor|assumption].
+      * simpl. rewrite Hax. reflexivity.
     + destruct (slice_selects sa sb sc d) as [ks|] eqn:Es; [|discriminate]. inversion Ea; subst.
       pose proof (slice_selects_step _ _ _ _ _ Es) as Hc.
-      simpl in Hde. apply andb_true_iff in Hde. destruct Hde as [Hd1 Hd4].
       pose proof (norm_clipped sa sb sc d Hd Hc) as Hcl.
-      pose proof (slice_norm_partial_proof sa sb sc d Hd Hc Hd1) as Hsel.
-      unfold d4_clause in Hd4.
+      pose proof (slice_norm_correct_proof sa sb sc d Hd Hc) as Hsel.
       destruct (norm_triple (normalize_slice (VSlice (oz sa) (oz sb) (oz sc)) d)) as [[[s1 e1] st]|] eqn:Et;
         [|contradiction].
       destruct Hcl as [Hst Hcl].
       apply norm_triple_some in Et. rewrite Et in Hsel. simpl in Hsel. rewrite Es in Hsel.
       inversion Hsel; subst ks.
       assert (Hst0 : st <> 0) by (rewrite Hst; destruct sc as [z|]; simpl; [congruence|lia]).
-      exists ((VSlice (VInt s1) (VInt e1) (VInt st), d) :: ents). split.
+      exists ((VSlice (VInt s1) (VInt e1) (VInt st), d) :: ents). split; [|split].
       * simpl. rewrite Et. simpl. rewrite Hn. reflexivity.
       * constructor; [|assumption]. apply res_slice; [reflexivity| |assumption].
-        apply dok_bounds_clipped; [assumption|assumption|].
-        destruct (Z.ltb_spec 0 st); [left; assumption|].
-        destruct (Z.eqb_spec s1 0); [|right; left; assumption].
-        destruct (Z.eqb_spec d 1); [right; right; assumption|].
-        simpl in Hd4. discriminate.
+        apply dok_bounds_clipped; assumption.
+      * simpl. destruct (Z.eqb_spec st 0); [contradiction|]. rewrite Hax. reflexivity.
 Qed.
 
 Section BasicStep.
@@ -726,7 +710,6 @@ Section BasicStep.
     shape_ok sh ->
     np_axes (np_pad es sh) sh = Some axs ->
     bcast_ok (a_shape v) (selshape axs) = true ->
-    entries_dom entry_setdom (np_pad es sh) sh = true ->
     (length (a_shape v) <= length (selshape axs))%nat ->
     exists st',
       setitem_basic veqb sh fill st es v = Ok st' /\
@@ -737,8 +720,8 @@ Section BasicStep.
                   end) /\
       (wf V veqb fill sh st -> wf V veqb fill sh st').
   Proof.
-    intros Hok Hax Hb Hdom Hl.
-    destruct (norm_entries_resolves _ _ _ Hok Hax Hdom) as (ents & Hn & Hf).
+    intros Hok Hax Hb Hl.
+    destruct (norm_entries_resolves _ _ _ Hok Hax) as (ents & Hn & Hf & _).
     destruct (setitem_go_spec V veqb veqb_eq fill sh ents axs Hf [] v st Hb Hl) as (st' & He & Ha & Hw).
     exists st'. split; [|split].
     - unfold setitem_basic, normalize_key. rewrite Hn. simpl. exact He.
@@ -990,11 +973,14 @@ Section Histories.
     unfold DOK.step, np_assign. simpl fst. simpl snd.
     destruct k as [es|ls|m]; [| |discriminate]; simpl in *.
     - apply andb_true_iff in Hcl. destruct Hcl as [Hed Hvn].
+      assert (Hset : setitem veqb sh fill st (KBasic es) v = setitem_basic veqb sh fill st es v)
+        by (destruct es; [discriminate|reflexivity]).
+      simpl in Hset. rewrite Hset. clear Hset.
       unfold np_setitem_basic in *. unfold value_ndim_clause in Hvn.
       destruct (np_axes (np_pad es sh) sh) as [axs|] eqn:Eax; [|discriminate].
       destruct (bcast_ok (a_shape v) (selshape axs)) eqn:Eb; [|discriminate].
       apply Nat.leb_le in Hvn.
-      destruct (setitem_basic_spec V veqb veqb_eq fill sh st es v axs Hok Eax Eb Hed Hvn)
+      destruct (setitem_basic_spec V veqb veqb_eq fill sh st es v axs Hok Eax Eb Hvn)
         as (st' & He & Ha & Hw).
       rewrite He. split; [exact Ha|exact Hw].
     - apply andb_true_iff in Hcl. destruct Hcl as [Hcl Hvc].
@@ -1097,7 +1083,9 @@ Section Histories.
     intros HP st [k v] Hp. unfold DOK.step. simpl.
     destruct (setitem veqb sh fill st k v) as [st'|] eqn:E; [|assumption].
     destruct k as [es|ls|m]; simpl in E; [| |discriminate].
-    - unfold setitem_basic in E. destruct (normalize_key es sh); simpl in E; [|discriminate].
+    - assert (E' : setitem_basic veqb sh fill st es v = Ok st')
+        by (destruct es; [destruct sh as [|? [|? ?]]; discriminate|exact E]).
+      clear E. rename E' into E. unfold setitem_basic in E. destruct (normalize_key es sh); simpl in E; [|discriminate].
       eapply setitem_go_closed; eassumption.
     - unfold fancy_setitem in E.
       destruct (negb (Nat.eqb (length ls) (length sh))); [discriminate|].
@@ -1182,73 +1170,6 @@ Section Histories.
 End Histories.
 
 (* ------------------------------------------------------------------ reads *)
-(* a normalised entry as __getitem__ sees it: in range / clipped, and safe to normalise again *)
-Inductive rresolves : pyv * Z -> axis -> Prop :=
-| rres_int k dim : 0 <= k < dim -> rresolves (VInt k, dim) (AInt k)
-| rres_slice dim s e st :
-    0 <= dim -> clipped s e st dim -> st <> 0 -> (0 < st \/ 0 <= s \/ dim = 0) ->
-    rresolves (VSlice (VInt s) (VInt e) (VInt st), dim) (ASel (range_list s e st)).
-
-Lemma norm_entries_rresolves : forall es sh axs,
-  shape_ok sh -> np_axes es sh = Some axs -> entries_dom entry_getdom es sh = true ->
-  exists ents, norm_entries (map entry_pyv es) sh = Ok ents /\ Forall2 rresolves ents axs.
-Proof.
-  induction es as [|e es IH]; intros [|d sh] axs Hok; simpl; try discriminate.
-  - intros H _. inversion H. exists []. split; [reflexivity|constructor].
-  - inversion Hok as [|? ? Hd Hok']; subst.
-    destruct (np_axis e d) as [a|] eqn:Ea; [|discriminate].
-    destruct (np_axes es sh) as [r|] eqn:Er; [|discriminate].
-    intros H Hdom. inversion H; subst; clear H.
-    apply andb_true_iff in Hdom. destruct Hdom as [Hde Hdr].
-    destruct (IH sh r Hok' Er Hdr) as (ents & Hn & Hf).
-    destruct e as [i|sa sb sc]; simpl in Ea.
-    + destruct (wrap_index i d) as [k|] eqn:Ew; [|discriminate]. inversion Ea; subst.
-      exists ((VInt k, d) :: ents). split.
-      * simpl. rewrite (normalize_int_ok _ _ _ Ew). simpl. rewrite Hn. reflexivity.
-      * constructor; [|assumption]. constructor.
-        apply wrap_index_some in Ew. destruct Ew as [Hr ->]. destruct (Z.ltb_spec i 0); lia.
-    + destruct (slice_selects sa sb sc d) as [ks|] eqn:Es; [|discriminate]. inversion Ea; subst.
-      pose proof (slice_selects_step _ _ _ _ _ Es) as Hc.
-      simpl in Hde. apply andb_true_iff in Hde. destruct Hde as [Hd1 Hrn].
-      pose proof (norm_clipped sa sb sc d Hd Hc) as Hcl.
-      pose proof (slice_norm_partial_proof sa sb sc d Hd Hc Hd1) as Hsel.
-      unfold renorm_clause in Hrn.
-      destruct (norm_triple (normalize_slice (VSlice (oz sa) (oz sb) (oz sc)) d)) as [[[s1 e1] st]|] eqn:Et;
-        [|contradiction].
-      destruct Hcl as [Hst Hcl].
-      apply norm_triple_some in Et. rewrite Et in Hsel. simpl in Hsel. rewrite Es in Hsel.
-      inversion Hsel; subst ks.
-      assert (Hst0 : st <> 0) by (rewrite Hst; destruct sc as [z|]; simpl; [congruence|lia]).
-      exists ((VSlice (VInt s1) (VInt e1) (VInt st), d) :: ents). split.
-      * simpl. rewrite Et. simpl. rewrite Hn. reflexivity.
-      * constructor; [|assumption]. constructor; try assumption.
-        destruct (Z.ltb_spec 0 st); [left; assumption|].
-        destruct (Z.leb_spec 0 s1); [right; left; assumption|].
-        destruct (Z.eqb_spec d 0); [right; right; assumption|].
-        simpl in Hrn. discriminate.
-Qed.
-
-Lemma renorm_axes : forall ents axs,
-  Forall2 rresolves ents axs ->
-  exists ents2, norm_entries (map fst ents) (map snd ents) = Ok ents2 /\ axes_of ents2 = Ok axs.
-Proof.
-  induction 1 as [|x a ents axs Hr _ IH].
-  - exists []. split; reflexivity.
-  - destruct IH as (ents2 & Hn & Ha).
-    destruct Hr as [k dim Hk|dim s e st Hd Hcl Hst Hrn].
-    + exists ((VInt k, dim) :: ents2). split.
-      * simpl. rewrite (normalize_int_idem k dim Hk). simpl. rewrite Hn. reflexivity.
-      * simpl. rewrite Ha. reflexivity.
-    + pose proof (renorm_clipped s e st dim Hd Hcl Hst Hrn) as H2.
-      destruct (norm_triple (normalize_slice (VSlice (VInt s) (VInt e) (VInt st)) dim))
-        as [[[s2 e2] st2]|] eqn:Et; [|contradiction].
-      destruct H2 as [-> Heq]. apply norm_triple_some in Et.
-      exists ((VSlice (VInt s2) (VInt e2) (VInt st), dim) :: ents2). split.
-      * simpl. rewrite Et. simpl. rewrite Hn. reflexivity.
-      * simpl. destruct (Z.eqb_spec st 0); [contradiction|]. rewrite Ha. simpl.
-        rewrite (range_list_equiv s2 e2 s e st Hst Heq). reflexivity.
-Qed.
-
 Section Reads.
   Variable V : Type.
   Variable fill : V.
@@ -1261,10 +1182,9 @@ Section Reads.
     intros Hok Hdom. destruct k as [es|ls|m]; simpl in *; [| |discriminate].
     - destruct (np_axes (np_pad es sh) sh) as [axs|] eqn:Eax; [|discriminate].
       intros H. inversion H; subst; clear H.
-      destruct (norm_entries_rresolves _ _ _ Hok Eax Hdom) as (ents & Hn & Hf).
-      destruct (renorm_axes _ _ Hf) as (ents2 & Hn2 & Ha).
-      unfold getitem_basic, normalize_key, renorm. rewrite Hn. simpl. rewrite Hn2. simpl. rewrite Ha.
-      reflexivity.
+      destruct (norm_entries_resolves _ _ _ Hok Eax) as (ents & Hn & _ & Ha).
+      destruct es as [|e0 es0]; [discriminate|].
+      unfold getitem_basic, normalize_key. rewrite Hn. simpl. rewrite Ha. reflexivity.
     - unfold np_rows. destruct ls as [|l0 ls']; [discriminate|].
       destruct (forallb (fun l => Nat.eqb (length l) (length l0)) (l0 :: ls')) eqn:Hall; [|discriminate].
       destruct (wrap_lists (l0 :: ls') sh) as [ws|] eqn:Ew; [|discriminate].
@@ -1284,53 +1204,6 @@ Definition zvec (l : list Z) : arr Z :=
 Definition zmat (rows : list (list Z)) : arr Z :=
   mkArr [Z.of_nat (length rows); Z.of_nat (length (hd [] rows))]
         (fun ix => match ix with [i; j] => nth (Z.to_nat j) (nth (Z.to_nat i) rows []) 0 | _ => 0 end).
-
-Definition all_entries_ok (f : kentry -> Z -> bool) (sh : shape) (k : key) : bool :=
-  match k with KBasic es => entries_dom f (np_pad es sh) sh | _ => true end.
-Definition d1_only (e : kentry) (dim : Z) : bool :=
-  match e with KSlice _ b c => d1_clause b c | _ => true end.
-Definition d4_only (e : kentry) (dim : Z) : bool :=
-  match e with KSlice a b c => d4_clause a b c dim | _ => true end.
-Definition renorm_only (e : kentry) (dim : Z) : bool :=
-  match e with KSlice a b c => renorm_clause a b c dim | _ => true end.
-
-(* D4: d = DOK((5,)); d[0::-1] = 7 — NumPy accepts it, no D1, yet element 4 differs *)
-Theorem dok_setitem_refuted_proof :
-  exists (sh : shape) (fill : Z) (op : key * arr Z) (ix : idx),
-    shape_ok sh /\ op_valid sh op = true /\ all_entries_ok d1_only sh (fst op) = true /\
-    abs fill (step Z.eqb sh fill [] op) ix <> np_assign sh (np_full fill) op ix.
-Proof.
-  exists [5], 0, (KBasic [KSlice (Some 0) None (Some (-1))], zsc 7), [4].
-  split; [repeat constructor; lia|]. split; [reflexivity|]. split; [reflexivity|].
-  vm_compute. congruence.
-Qed.
-
-(* D1: d[3:-1:-1] = 7 (the user-given stop -1 is not wrapped) — no D4 *)
-Theorem dok_setitem_d1_refuted_proof :
-  exists (sh : shape) (fill : Z) (op : key * arr Z) (ix : idx),
-    shape_ok sh /\ op_valid sh op = true /\ all_entries_ok d4_only sh (fst op) = true /\
-    abs fill (step Z.eqb sh fill [] op) ix <> np_assign sh (np_full fill) op ix.
-Proof.
-  exists [5], 0, (KBasic [KSlice (Some 3) (Some (-1)) (Some (-1))], zsc 7), [3].
-  split; [repeat constructor; lia|]. split; [reflexivity|]. split; [reflexivity|].
-  vm_compute. congruence.
-Qed.
-
-(* reads: x[-7:-6:-2] on arange(1,6) gives [5,3,1]; NumPy: empty — no D1 *)
-Theorem dok_getitem_refuted_proof :
-  exists (sh : shape) (fill : Z) (st : state Z) (k : key),
-    shape_ok sh /\ wf Z Z.eqb fill sh st /\ all_entries_ok d1_only sh k = true /\
-    match np_getitem sh (abs fill st) k with
-    | Some r => getitem sh fill st k <> Ok r
-    | None => False
-    end.
-Proof.
-  exists [5], 0, (run Z.eqb [5] 0 [(KBasic [], zvec [1; 2; 3; 4; 5])]),
-         (KBasic [KSlice (Some (-7)) (Some (-6)) (Some (-2))]).
-  split; [repeat constructor; lia|]. split.
-  - apply dok_wf_proof; [intros a b; apply Z.eqb_eq|repeat constructor; lia|reflexivity].
-  - split; [reflexivity|]. vm_compute. congruence.
-Qed.
 
 (* integer-list keys: d[[-1]] = 5 stores the key (-1,) *)
 Theorem dok_fancy_negative_refuted_proof :
@@ -1366,12 +1239,38 @@ Qed.
 (* values: d[0:2] = [[1, 2]] (surplus leading axis of extent 1) raises ValueError *)
 Theorem dok_value_ndim_refuted_proof :
   exists (sh : shape) (fill : Z) (op : key * arr Z) (ix : idx),
-    shape_ok sh /\ op_valid sh op = true /\ all_entries_ok entry_setdom sh (fst op) = true /\
+    shape_ok sh /\ op_valid sh op = true /\
     abs fill (step Z.eqb sh fill [] op) ix <> np_assign sh (np_full fill) op ix.
 Proof.
   exists [5], 0, (KBasic [KSlice (Some 0) (Some 2) None], zmat [[1; 2]]), [1].
-  split; [repeat constructor; lia|]. split; [reflexivity|]. split; [reflexivity|]. vm_compute. congruence.
+  split; [repeat constructor; lia|]. split; [reflexivity|]. vm_compute. congruence.
 Qed.
+
+(* the empty tuple: d[()] = 5 raises NotImplementedError (IndexError on a 1-d array) *)
+Theorem dok_empty_key_refuted_proof :
+  exists (sh : shape) (fill : Z) (op : key * arr Z) (ix : idx),
+    shape_ok sh /\ op_valid sh op = true /\
+    abs fill (step Z.eqb sh fill [] op) ix <> np_assign sh (np_full fill) op ix.
+Proof.
+  exists [2; 2], 0, (KBasic [], zsc 5), [1; 1].
+  split; [repeat constructor; lia|]. split; [reflexivity|]. vm_compute. congruence.
+Qed.
+
+(* the former defects D1, D4 and the double normalisation of reads (fixed in /repo by f6512bb and
+   97946a9) are now INSIDE the proved domain; their old witnesses as regression examples *)
+Example dok_former_defects_fixed :
+  (* d = DOK((5,)); d[0::-1] = 7 writes only d[0] *)
+  run Z.eqb [5] 0 [(KBasic [KSlice (Some 0) None (Some (-1))], zsc 7)] = [([0], 7)] /\
+  (* d[3:-1:-1] = 7 writes nothing; d[-9:0:-1] = 7 writes nothing *)
+  run Z.eqb [5] 0 [(KBasic [KSlice (Some 3) (Some (-1)) (Some (-1))], zsc 7)] = [] /\
+  run Z.eqb [5] 0 [(KBasic [KSlice (Some (-9)) (Some 0) (Some (-1))], zsc 7)] = [] /\
+  (* DOK(arange(1,6))[-7:-6:-2] is empty *)
+  getitem [5] 0 (run Z.eqb [5] 0 [(KBasic [KSlice None None None], zvec [1; 2; 3; 4; 5])])
+          (KBasic [KSlice (Some (-7)) (Some (-6)) (Some (-2))]) = Ok ([0], []) /\
+  forallb (op_dom [5]) [(KBasic [KSlice (Some 0) None (Some (-1))], zsc 7);
+                        (KBasic [KSlice (Some 3) (Some (-1)) (Some (-1))], zsc 7);
+                        (KBasic [KSlice (Some (-9)) (Some 0) (Some (-1))], zsc 7)] = true.
+Proof. vm_compute. repeat split. Qed.
 
 (* ------------------------------------------------------------------ non-vacuity *)
 Definition ex_ops : list (key * arr Z) :=
